@@ -62,6 +62,16 @@ Proof. intros t n. split; [apply qwalk_complete|apply qwalk_sound]. Qed.
 Theorem C15_collect_visits_exponential_refuted : forall k, 2 ^ k <= visits_pinned em (union_chain k).
 Proof. exact (collect_visits_exponential_refuted em eq_refl). Qed.
 
+(* Historical: EXPLAIN q / DESCRIBE q was parsed to DescribeStatement{TableName: "SELECT"} — the query parsed and thrown
+   away ([explain_pinned]): nothing written in q was extracted.  Repaired in /repo c61589e (DescribeStatement.Query);
+   [MExplain] is prescribed with the query since and covered by the exactness theorems above. *)
+Theorem C15_explain_query_dropped_refuted :
+  exists q t c f,
+    In t (tables_written (MExplain q)) /\ In c (columns_written (MExplain q)) /\ In f (functions_written (MExplain q)) /\
+    extract_tables em [explain_pinned] = [] /\ extract_columns em [explain_pinned] = [] /\
+    extract_functions em [explain_pinned] = [].
+Proof. exact (explain_names_dropped em). Qed.
+
 Print Assumptions C15_tables_exact.
 Print Assumptions C15_columns_exact.
 Print Assumptions C15_functions_exact.
@@ -72,6 +82,7 @@ Print Assumptions C15_dedup.
 Print Assumptions C15_collect_visits_linear.
 Print Assumptions C15_traversal_complete.
 Print Assumptions C15_collect_visits_exponential_refuted.
+Print Assumptions C15_explain_query_dropped_refuted.
 
 (* ---- non-vacuity: a statement with aliases, a derived table, three joins (two synthetic left names), a CTE
    referenced in FROM, duplicate names, string contents that look like names ---- *)
@@ -117,3 +128,54 @@ Example ex_niladic :
 Proof. vm_compute. tauto. Qed.
 Example ex_pinned_cost : visits_pinned em (union_chain 5) = 219 /\ visits em [union_chain 5] = 17.
 Proof. vm_compute. tauto. Qed.
+
+(* ---- non-vacuity, statements that carry a query / an expression: the names they define or designate (view name and
+   column list, index name, keys and table, created table and its columns, constraint keys) are in the prescribed tree
+   and in no result; the names inside the carried query / expressions are ---- *)
+Definition colx (q n : string) (H : name_ok n = true) : mexpr := MCol q (mkName n H).
+Definition ex_view : mstmt :=
+  MCreateView (mkT "zs.zv" eq_refl) ["zc1"; "zc2"]
+    (MSetOp "UNION"
+       (MSelect CNil (ICons (colx "u" "a" eq_refl) "" (ICons (MFunc (mkName "UPPER" eq_refl) (ECons (colx "" "b" eq_refl) ENil)) "zal1" INil))
+                (TCons (TName (mkT "s1.users" eq_refl) "u") TNil) JNil ONone ENil ONone ENil)
+       (MSelect CNil (ICons (colx "" "c" eq_refl) "" (ICons (MLit "zc1" "string") "" INil))
+                (TCons (TName (mkT "t2" eq_refl) "") TNil) JNil ONone ENil ONone ENil)).
+Example ex_view_results :
+  (extract_tables em [ast_stmt ex_view], extract_columns em [ast_stmt ex_view], extract_functions em [ast_stmt ex_view]) =
+  (["s1.users"; "t2"], ["a"; "b"; "c"], ["UPPER"]).
+Proof. vm_compute. reflexivity. Qed.
+Definition ex_index : mstmt :=
+  MCreateIndex (mkT "zi" eq_refl) (mkT "t1" eq_refl) [mkName "zk1" eq_refl; mkName "zk2" eq_refl]
+    (OSome (MBin ">" (MFunc (mkName "length" eq_refl) (ECons (colx "" "name" eq_refl) ENil)) (MLit "0" "int"))).
+Example ex_index_results :
+  (extract_tables em [ast_stmt ex_index], extract_columns em [ast_stmt ex_index], extract_functions em [ast_stmt ex_index]) =
+  ([], ["name"], ["length"]).
+Proof. vm_compute. reflexivity. Qed.
+Definition ex_table : mstmt :=
+  MCreateTable (mkT "zt" eq_refl)
+    (DCons (mkName "zk1" eq_refl) "INT" (XPlain "NOT NULL" (XDefault (MFunc (mkName "f" eq_refl) (ECons (MLit "1" "int") ENil)) XNil))
+       (DCons (mkName "zk2" eq_refl) "TEXT" (XCheck (MBin "<>" (colx "" "amount" eq_refl) (MLit "zk1" "string")) XNil) DNil))
+    (YPlain "UNIQUE" ["zk1"; "zk2"] (YCheck (MInSub (colx "" "id" eq_refl)
+        (MSelect CNil (ICons (colx "" "k1" eq_refl) "" INil) (TCons (TName (mkT "orders" eq_refl) "") TNil) JNil ONone ENil ONone ENil)) YNil)).
+Example ex_table_results :
+  (extract_tables em [ast_stmt ex_table], extract_columns em [ast_stmt ex_table], extract_functions em [ast_stmt ex_table]) =
+  (["orders"], ["amount"; "id"; "k1"], ["f"]).
+Proof. vm_compute. reflexivity. Qed.
+Example ex_designators_in_tree :
+  existsb (fun n => str_eqb (q_name n) "zk1") (qwalk em (ast_stmt ex_index)) = true /\
+  existsb (fun n => str_eqb (a_qual (q_attrs n)) "t1") (qwalk em (ast_stmt ex_index)) = true /\
+  existsb (fun n => smem "zc1" (a_list (q_attrs n))) (qwalk em (ast_stmt ex_view)) = true.
+Proof. vm_compute. repeat split. Qed.
+
+(* ---- non-vacuity, depth: a flat chain f(x) + c + c + ... of 300 operands is a tree 300 levels deep; the names of its
+   FIRST operand (the deepest node) are extracted ---- *)
+Fixpoint plus_chain (n : nat) (first : mexpr) : mexpr :=
+  match n with
+  | O => first
+  | S k => MBin "+" (plus_chain k first) (colx "" "c" eq_refl)
+  end.
+Example ex_chain_300 :
+  let s := MExplain (MSelect CNil (ICons (plus_chain 300 (MFunc (mkName "f" eq_refl) (ECons (colx "" "deep" eq_refl) ENil))) "" INil)
+                             (TCons (TName (mkT "t1" eq_refl) "") TNil) JNil ONone ENil ONone ENil) in
+  (extract_tables em [ast_stmt s], extract_columns em [ast_stmt s], extract_functions em [ast_stmt s]) = (["t1"], ["deep"; "c"], ["f"]).
+Proof. vm_compute. reflexivity. Qed.
